@@ -410,7 +410,7 @@ pub fn bracket_list(input: Span) -> PResult<Value> {
     Ok((
         input,
         match content {
-            Some(Value::List(list, sep, false)) => {
+            Some(Value::List(list, sep, false)) if !list.is_empty() => {
                 Value::List(list, sep, true)
             }
             Some(single) => Value::List(vec![single], None, true),
